@@ -257,3 +257,43 @@ func TestFixedD27TimedOutScriptReturns(t *testing.T) {
 		t.Fatalf("the caller did not get control back 3s after a 50ms script timeout (D27)")
 	}
 }
+
+// D50 (known finding): IndexedState.Load deletes a record that expired while the location was not in memory straight from
+// storage, without the deleteWith cascade: the dependents of the expired rule (its "disabled" flag, say) survive, and a rule
+// added later under the same id inherits them. (C08: "deleteWith removes exactly the dependents"; C10: the flag goes with
+// the rule.)
+func TestReplayD50ExpiredAtLoadLeavesDependents(t *testing.T) {
+	ctx := NewContext("d50")
+	store, _ := NewMemStorage(ctx)
+	open := func() *Location {
+		state, err := NewIndexedState(ctx, "d50", store)
+		if err != nil {
+			t.Fatal(err)
+		}
+		loc, err := NewLocation(ctx, "d50", state, nil)
+		if err != nil {
+			t.Fatal(err)
+		}
+		loc.SetControl(&Control{MaxFacts: 1000})
+		return loc
+	}
+	loc := open()
+	if _, err := loc.AddRule(ctx, "r1", mapJSv(`{"ttl":"1s","when":{"pattern":{"wants":"?x"}},"action":{"code":"1"}}`)); err != nil {
+		t.Fatal(err)
+	}
+	if err := loc.EnableRule(ctx, "r1", false); err != nil {
+		t.Fatal(err)
+	}
+	time.Sleep(2100 * time.Millisecond)
+	loc = open() // reload: r1 has expired in the meantime
+	if _, err := loc.AddRule(ctx, "r1", mapJSv(`{"when":{"pattern":{"wants":"?x"}},"action":{"code":"2"}}`)); err != nil {
+		t.Fatal(err)
+	}
+	enabled, err := loc.RuleEnabled(ctx, "r1")
+	if err != nil {
+		t.Fatal(err)
+	}
+	if enabled {
+		t.Fatalf("the new r1 is enabled: the known finding D50 seems to be gone: update known_findings.json")
+	}
+}
